@@ -13,7 +13,7 @@ import json, os, random, re, subprocess, shutil
 from concurrent.futures import ThreadPoolExecutor
 
 import relay_check, conc_check
-from vlib import NCPU, VERIF, GOENV, Inconclusive, write_evidence, known_match, save_replay, read_ndjson, write_ndjson
+from vlib import run_group, NCPU, VERIF, GOENV, Inconclusive, write_evidence, known_match, save_replay, read_ndjson, write_ndjson
 
 ALL = ["vikja", "odal", "dagaz"]
 
@@ -206,9 +206,10 @@ def run(work, tier, replay=None):
     procs = 3 if tier == "quick" else 4
     cfgp = os.path.join(d, "ls.cfg")
     open(cfgp, "w").write("SPECIFICATION SSpec\nCONSTANTS\n  Procs = %d\nINVARIANT Balanced\n" % procs)
-    r = subprocess.run(["tlc", "-workers", str(NCPU), "-metadir", os.path.join(d, "meta"), "-config", "ls.cfg", "LockSkeleton.tla"],
-                       cwd=d, capture_output=True, text=True, timeout=3000)
-    out = r.stdout + r.stderr
+    rc_tlc, out = run_group(["tlc", "-workers", str(NCPU), "-metadir", os.path.join(d, "meta"), "-config", "ls.cfg", "LockSkeleton.tla"],
+                            d, dict(os.environ), 3000, os.path.join(d, "ls.log"))
+    if rc_tlc == -9:
+        raise Inconclusive("LockSkeleton timed out")
     m = re.search(r"(\d+) states generated, (\d+) distinct states found", out)
     st = dict(generated=int(m.group(1)) if m else 0, distinct=int(m.group(2)) if m else 0)
     dead = "Deadlock reached" in out
